@@ -663,3 +663,36 @@ def propagate_rule(run, R="TAB-op"):
     run.check(len(rec) >= 10 and not missing, R, R + "|propagate|every-subexpression", ev.loc(),
               "each of the %d sub-expression evaluations is asked should_propagate() before its value is used" % len(rec),
               "the evaluator uses the value of a sub-expression without asking should_propagate() first (%s): a symbol that is not known yet in this pass would be answered with a type error instead of `unknown`" % ", ".join(missing[:4]))
+
+
+def slice_bounds_rule(run, R="TAB-op"):
+    """`x[hi:lo]` with hi < lo is an error: the evaluator compares the two bounds as written (not hi + 1 with lo, which lets
+    hi == lo - 1 through as an empty value) and fails on the inverted edge"""
+    from rules_sym import deep, report_error_in_region
+    from rules_tab import err_return_in_region
+    ev = [f for f in run.prog.real_fns() if f.id.endswith("Expr>::eval_with_ctx")]
+    if len(ev) != 1:
+        return
+    ev = ev[0]
+    arm = None
+    for b, arms, oth, pl, vs in T.enum_switch_arms(ev, "Expr"):
+        if "Slice" in arms:
+            arm = (b, arms["Slice"])
+    if arm is None:
+        run.violation(R, R + "|slice|raw-bounds", ev.loc(), "mechanism not found: the Slice arm of the evaluator")
+        return
+    reg = T.dominated_region(ev, arm[1], arm[0])
+    ok = False
+    for x in sorted(reg):
+        for st in ev.blocks[x]["stmts"]:
+            if st["k"] == "assign" and st["rv"]["k"] == "binop" and st["rv"]["op"] in ("Lt", "Gt", "Le", "Ge"):
+                l, r = deep(ev, st["rv"]["l"], 7), deep(ev, st["rv"]["r"], 7)
+                if "expect_usize(" in l and "expect_usize(" in r and " Add " not in l + r and "checked_add" not in l + r:
+                    tt = ev.blocks[x]["term"]
+                    if tt["k"] == "switch":
+                        for e in ev.succs(x):
+                            rg = T.dominated_region(ev, e, x)
+                            if report_error_in_region(ev, rg) and err_return_in_region(ev, rg):
+                                ok = True
+    run.check(ok, R, R + "|slice|raw-bounds", ev.loc(), "the slice bounds are compared as written and an inverted range fails",
+              "the Slice arm of the evaluator has no comparison of the two bounds as written that fails: `x[2:3]` (hi == lo - 1) is answered with an empty value instead of `invalid slice range`")
